@@ -55,15 +55,70 @@ Lemma gett_istA_oob t : 4 <= t -> gett istA t = dtask.
 Proof. intros H. apply gett_oob. vm_compute. lia. Qed.
 
 (* X (3) waits for W1 (1); W1 and W2 (2) wait for H (0) *)
+Lemma istA_holding t l : In l (tholding (gett istA t)) -> (t = 0 /\ l = 0) \/ (t = 1 /\ l = 1).
+Proof.
+  intros H. destruct t as [|[|[|[|t]]]].
+  - vm_compute in H. intuition.
+  - vm_compute in H. intuition.
+  - vm_compute in H. intuition.
+  - vm_compute in H. intuition.
+  - rewrite gett_oob in H by (vm_compute; lia). destruct H.
+Qed.
+Lemma istA_waiters0 w : In w (lock_waiter_tasks (getl istA 0)) -> w = 1 \/ w = 2.
+Proof. intros H. vm_compute in H. intuition. Qed.
+Lemma istA_waiters1 w : In w (lock_waiter_tasks (getl istA 1)) -> w = 3.
+Proof. intros H. vm_compute in H. intuition. Qed.
+Lemma istA_efuel : efuel istA = 7.
+Proof. reflexivity. Qed.
+
 Example istA_ranked : ranked istA.
 Proof.
   exists (fun t => match t with 0 => 2 | 1 => 1 | _ => 0 end). split.
-  - intros w t (l & Hl & Hw).
-    destruct t as [|[|[|[|t]]]]; [| | |
-      |rewrite gett_istA_oob in Hl by lia; destruct Hl];
-      vm_compute in Hl; repeat (destruct Hl as [<-|Hl]; [|]); try (destruct Hl);
-      vm_compute in Hw; repeat (destruct Hw as [<-|Hw]; [lia|]); destruct Hw.
-  - intros t. destruct t as [|[|t]]; vm_compute; lia.
+  - intros w t (l & Hl & Hw). apply istA_holding in Hl as [[-> ->]|[-> ->]].
+    + apply istA_waiters0 in Hw as [->| ->]; lia.
+    + apply istA_waiters1 in Hw as ->; lia.
+  - intros t. rewrite istA_efuel. destruct t as [|[|t]]; lia.
+Qed.
+
+Lemma istA_arr0 : arr (lpq (getl istA 0)) = [mkE (-5)%Q 0 3; mkE 3%Q 1 4].
+Proof. vm_compute; reflexivity. Qed.
+Lemma istA_arr1 : arr (lpq (getl istA 1)) = [mkE (-5)%Q 0 6].
+Proof. vm_compute; reflexivity. Qed.
+Lemma istA_lwt0 : lwt (getl istA 0) = [(3, 1); (4, 2)].
+Proof. vm_compute; reflexivity. Qed.
+Lemma istA_lwt1 : lwt (getl istA 1) = [(6, 3)].
+Proof. vm_compute; reflexivity. Qed.
+Example x_k1 : keyed istA 1.
+Proof.
+  intros e He _. rewrite istA_arr1 in He. destruct He as [<-|[]]; vm_compute; reflexivity.
+Qed.
+Example x_k0 : keyed istA 0.
+Proof.
+  intros e He _. rewrite istA_arr0 in He. destruct He as [<-|[<-|[]]]; vm_compute; reflexivity.
+Qed.
+Example x_b3 : blocked_on istA 3 1 6.
+Proof.
+   unfold blocked_on. split; [vm_compute; reflexivity|]. split; [vm_compute; reflexivity|]. split; [vm_compute; reflexivity|].
+   rewrite istA_lwt1. split; [simpl; auto|]. intros f' Hf.
+    destruct Hf as [E|[]]; inversion E; reflexivity. 
+Qed.
+Example x_b1 : blocked_on istA 1 0 3.
+Proof.
+   unfold blocked_on. split; [vm_compute; reflexivity|]. split; [vm_compute; reflexivity|]. split; [vm_compute; reflexivity|].
+   rewrite istA_lwt0. split; [simpl; auto|]. intros f' Hf.
+    destruct Hf as [E|[E|[]]]; inversion E; reflexivity. 
+Qed.
+Example x_r : reaches istA 1 3 1.
+Proof. apply (reach_up istA 0 3 1 6 1 1 x_b3); [vm_compute; reflexivity|constructor]. Qed.
+Example x_e :   map (fun t => Qred (effective_priority istA t)) [0; 1; 2; 3] = [(-5)%Q; (-5)%Q; 3%Q; (-5)%Q] /\
+  map (own istA) [0; 1; 2; 3] = [0%Q; 5%Q; 3%Q; (-5)%Q].
+Proof. split; vm_compute; reflexivity. Qed.
+Example x_lwt : lwt_ok istA.
+Proof.
+  intros l. destruct l as [|[|l]].
+  - rewrite istA_lwt0. repeat constructor; simpl; intuition discriminate.
+  - rewrite istA_lwt1. repeat constructor; simpl; intuition discriminate.
+  - rewrite getl_oob by (vm_compute; lia). constructor.
 Qed.
 
 Example istA_facts :
@@ -77,31 +132,26 @@ Example istA_facts :
   map (fun t => Qred (effective_priority istA t)) [0; 1; 2; 3] = [(-5)%Q; (-5)%Q; 3%Q; (-5)%Q] /\
   map (own istA) [0; 1; 2; 3] = [0%Q; 5%Q; 3%Q; (-5)%Q].
 Proof.
-  split; [apply reachable_istA|]. split; [apply istA_ranked|].
-  split.
-  { intros l. destruct l as [|[|l]]; [vm_compute; repeat constructor; simpl; intuition discriminate..|].
-    rewrite getl_oob by (vm_compute; lia). constructor. }
-  split; [reflexivity|]. split; [reflexivity|].
+  split; [apply reachable_istA|]. split; [apply istA_ranked|]. split; [apply x_lwt|].
+  split; [apply istA_arr0|]. split; [apply istA_lwt0|].
   split; [apply (iB1 (reachable_inv _ reachable_istA) 0)|].
-  split.
-  { intros e He _. vm_compute in He. destruct He as [<-|[<-|[]]]; vm_compute; reflexivity. }
-  split.
-  { intros e He _. vm_compute in He. destruct He as [<-|[]]; vm_compute; reflexivity. }
-  split.
-  { unfold blocked_on. split; [reflexivity|]. split; [reflexivity|]. split; [reflexivity|].
-    split; [vm_compute; auto|]. intros f' Hf. vm_compute in Hf.
-    destruct Hf as [E|[E|[]]]; inversion E; reflexivity. }
-  assert (B3 : blocked_on istA 3 1 6).
-  { unfold blocked_on. split; [reflexivity|]. split; [reflexivity|]. split; [reflexivity|].
-    split; [vm_compute; auto|]. intros f' Hf. vm_compute in Hf.
-    destruct Hf as [E|[]]; inversion E; reflexivity. }
-  split; [exact B3|].
-  split; [eapply reach_up; [exact B3|reflexivity|constructor]|].
-  split; reflexivity.
+  split; [apply x_k0|]. split; [apply x_k1|]. split; [apply x_b1|]. split; [apply x_b3|].
+  split; [apply x_r|]. apply x_e.
 Qed.
 
 (* ------------------------------------------------------------ the hand-over *)
 Definition istA_free : st := pre_wake istA 0 0.
+
+Lemma istA_free_arr0 : arr (lpq (getl istA_free 0)) = [mkE (-5)%Q 0 3; mkE 3%Q 1 4].
+Proof. vm_compute; reflexivity. Qed.
+Lemma istA_free_lpq : lpq (getl istA_free 0) = lpq (getl istA 0).
+Proof. vm_compute; reflexivity. Qed.
+Example istA_free_keyed : keyed istA_free 0.
+Proof.
+  intros e He _. rewrite istA_free_arr0 in He. destruct He as [<-|[<-|[]]]; vm_compute; reflexivity.
+Qed.
+Example istA_free_pq : PQInv (lpq (getl istA_free 0)).
+Proof. rewrite istA_free_lpq. apply (iB1 (reachable_inv _ reachable_istA) 0). Qed.
 
 (* H releases lock 0: the theorem applies (queue invariant, live keys up to date) and the
    lock goes to the inheritor W1 (future 3), not to W2 (future 4) whose own priority 3 is
@@ -115,11 +165,10 @@ Example istA_handover :
   map (fun f => fstate_ (getf istR f)) [3; 4] = [FResult 1; FPending] /\
   Qred (effective_priority istR 0) = 0%Q.
 Proof.
-  split; [apply release_p_wake; reflexivity|].
-  split; [apply (iB1 (reachable_inv _ reachable_istA) 0)|].
-  split.
-  { intros e He _. vm_compute in He. destruct He as [<-|[<-|[]]]; vm_compute; reflexivity. }
-  vm_compute. repeat split.
+  split; [apply release_p_wake; vm_compute; reflexivity|].
+  split; [apply istA_free_pq|]. split; [apply istA_free_keyed|].
+  split; [vm_compute; reflexivity|]. split; [vm_compute; reflexivity|].
+  split; vm_compute; reflexivity.
 Qed.
 
 (* the conclusion of C12_handover, obtained from the theorem rather than by computation *)
@@ -130,7 +179,8 @@ Example istA_handover_by_theorem :
 Proof.
   destruct istA_handover as (_ & Hq & Hk & H3 & _).
   destruct (handover_by_eprio istA_free 0 3 Hq Hk) as (head & rest & Ea & Ef & _ & _ & Hb & _).
-  { rewrite H3. vm_compute. discriminate. }
+  { rewrite H3. assert (E : fstate_ (getf istA_free 3) = FPending) by (vm_compute; reflexivity).
+    rewrite E. discriminate. }
   exists head, rest. auto.
 Qed.
 
@@ -183,6 +233,9 @@ Definition acquire_p_start_old (s : st) (t l : nat) : st * lres :=
 Definition istOld : st := fst (acquire_p_start_old istPre 3 1).
 Definition istNew : st := fst (acquire_p_start istPre 3 1).
 
+Lemma istOld_arr0 : arr (lpq (getl istOld 0)) = [mkE 3%Q 1 4; mkE 5%Q 0 3].
+Proof. vm_compute; reflexivity. Qed.
+
 Theorem rekey_refuted_before_fix :
   reachable istPre /\
   (* old code: W1 (future 3) inherits -5 but its entry keeps the stale key 5 ... *)
@@ -195,9 +248,13 @@ Theorem rekey_refuted_before_fix :
   arr (lpq (getl istNew 0)) = [mkE (-5)%Q 0 3; mkE 3%Q 1 4] /\
   map (fun f => fstate_ (getf (fst (release_p istNew 0 0)) f)) [3; 4] = [FResult 1; FPending].
 Proof.
-  split; [apply reachable_istPre|]. split; [reflexivity|]. split; [reflexivity|].
+  split; [apply reachable_istPre|]. split; [apply istOld_arr0|]. split; [vm_compute; reflexivity|].
   split.
-  { intros K. specialize (K (mkE 5%Q 0 3)). vm_compute in K.
-    assert (5 * 1 = -5 * 1)%Z as E by (apply K; auto). discriminate. }
-  vm_compute. repeat split.
+  { intros K. specialize (K (mkE 5%Q 0 3)).
+    assert (E : (5 == wprio istOld (entry_task (getl istOld 0) (mkE 5%Q 0 3)))%Q).
+    { apply K; [rewrite istOld_arr0; simpl; auto|vm_compute; reflexivity]. }
+    assert (E2 : (wprio istOld (entry_task (getl istOld 0) (mkE 5%Q 0 3)) == -5)%Q)
+      by (vm_compute; reflexivity).
+    lra. }
+  split; [vm_compute; reflexivity|]. split; vm_compute; reflexivity.
 Qed.
